@@ -22,6 +22,27 @@ func checkRebuild(c *Ctx, rule string, fn *ssa.Function, iface string, skipRebui
 	group := c.Prog.RecursionGroup(fn)
 	tss := c.Prog.TypeSwitches(fn, iface)
 	if len(tss) == 0 {
+		// the switch may live in a helper that is handed the function's own node
+		for _, cs := range Calls(fn) {
+			g := Callee(cs.Common())
+			if g != nil {
+				g = Origin(g)
+			}
+			if g == nil || g.Blocks == nil || g == fn || PkgPathOf(g) != PkgPathOf(fn) {
+				continue
+			}
+			for _, a := range cs.Common().Args {
+				if len(fn.Params) > 0 && Unwrap(a) == ssa.Value(fn.Params[0]) {
+					if t2 := c.Prog.TypeSwitches(g, iface); len(t2) > 0 {
+						tss = t2
+						group = c.Prog.RecursionGroup(g)
+						group[Origin(fn)] = true
+					}
+				}
+			}
+		}
+	}
+	if len(tss) == 0 {
 		c.Undecide("%s: no type switch over expr.%s found in %s", rule, iface, ShortName(fn))
 		return 0
 	}
@@ -36,13 +57,24 @@ func checkRebuild(c *Ctx, rule string, fn *ssa.Function, iface string, skipRebui
 			if m == nil || m.Ctor == nil || len(m.Children()) == 0 {
 				continue
 			}
-			e := ts.CaseValue(n)
-			cb := ts.CaseBlock(n)
-			if e == nil || cb == nil {
+			body := ts.CaseBody(n)
+			if body == nil {
 				continue // multi-type case without a bound value
 			}
-			region := RegionOf(cb)
-			oc := &OriginCtx{E: e, X: ts.X, Model: m, Group: group}
+			e, cb, region := body.E, body.Entry, body.Region
+			grp := group
+			if body.Extracted {
+				grp = map[*ssa.Function]bool{}
+				for k, v := range group {
+					grp[k] = v
+				}
+				grp[Origin(body.Fn)] = true
+			}
+			x := ts.X
+			if body.Extracted {
+				x = nil
+			}
+			oc := &OriginCtx{E: e, X: x, Model: m, Group: grp}
 			found := 0
 			for b := range region {
 				for _, in := range b.Instrs {
@@ -64,10 +96,7 @@ func checkRebuild(c *Ctx, rule string, fn *ssa.Function, iface string, skipRebui
 			}
 			// deterministic order
 			var calls []*ssa.Call
-			for _, b := range fn.Blocks {
-				if !region[b] {
-					continue
-				}
+			for _, b := range body.Blocks() {
 				for _, in := range b.Instrs {
 					if call, ok := in.(*ssa.Call); ok && SameFunc(call.Call.StaticCallee(), m.Ctor) {
 						calls = append(calls, call)
